@@ -23,13 +23,13 @@ struct Run {
 }
 
 #[allow(clippy::too_many_arguments)]
-fn run(api: usize, file: &[u8], payload_at: usize, props: Props, dict: u32, len: u64, us: UnpackedSize, memlimit: Option<usize>, cuts: &[usize], measure: bool) -> Run {
+fn run(api: usize, file: &[u8], payload_at: usize, props: Props, dict: u32, len: u64, us: UnpackedSize, memlimit: Option<usize>, cuts: &[usize], measure: bool, allow_inc: bool) -> Run {
     let sink = if measure { SharedSink::counting_only() } else { SharedSink::new() };
     let obs = sut::new_obs(u64::MAX);
     crate::alloc::reset();
     let verdict = match api {
-        0 => sut::decode(Entry::Lzma, file, &sut::opts(us, memlimit, false), ReaderKind::Slice, &sink, &obs).verdict,
-        1 => streamdrv::drive(file, &sut::opts(us, memlimit, false), cuts, &DriveOpts::default(), &sink, &obs).verdict,
+        0 => sut::decode(Entry::Lzma, file, &sut::opts(us, memlimit, allow_inc), ReaderKind::Slice, &sink, &obs).verdict,
+        1 => streamdrv::drive(file, &sut::opts(us, memlimit, allow_inc), cuts, &DriveOpts::default(), &sink, &obs).verdict,
         2 => match sut::raw_lzma_new(props.lc, props.lp, props.pb, dict, Some(len), memlimit) {
             Ok(mut d) => sut::raw_lzma_decompress(&mut d, &file[payload_at..], ReaderKind::Slice, &sink, &obs).verdict,
             Err(v) => v,
@@ -96,19 +96,37 @@ fn fam_limits(ctx: &CaseCtx, cov: &mut Cov) -> CaseOut {
     let payload_at = hdr.len();
     let mut file = hdr;
     file.extend_from_slice(&enc.payload);
+    // a fifth of the streams are cut short (the declared size is then never reached): the limit
+    // must still be judged against the window actually needed, not against what was announced;
+    // the streaming decoder is then also run with incomplete input allowed (Ok with a prefix)
+    let truncated = rng.chance(1, 5) && file.len() > payload_at + 6;
+    let allow_inc = truncated && rng.chance(1, 2);
+    if truncated {
+        let keep = rng.range(payload_at as u64 + 5, file.len() as u64 - 1) as usize;
+        file.truncate(keep);
+        cov.name(if allow_inc { "truncated_streams.incomplete_allowed" } else { "truncated_streams" }, 1);
+    }
     let cuts = {
         let k = rng.range(0, 6) as usize;
         streamdrv::cuts_random(&mut rng, file.len(), k)
     };
     // unlimited reference run: measures the window actually needed
-    let base = run(api, &file, payload_at, props, dict, len, us, None, &cuts, false);
+    let base = run(api, &file, payload_at, props, dict, len, us, None, &cuts, false, allow_inc);
     out.evals += 1;
-    if !(base.verdict.is_ok() && base.out == enc.output) {
-        out.harness_error(format!("unlimited run of a valid stream failed ({}); C01's business", base.verdict.short()));
+    if base.verdict.is_abnormal() {
+        return out; // C07's finding
+    }
+    let base_ok = if truncated {
+        base.out.len() <= enc.output.len() && base.out[..] == enc.output[..base.out.len()]
+    } else {
+        base.verdict.is_ok() && base.out == enc.output
+    };
+    if !base_ok {
+        out.harness_error(format!("unlimited run of a {} stream: {} with {} bytes; C01's business", if truncated { "truncated" } else { "valid" }, base.verdict.short(), base.out.len()));
         return out;
     }
     let need = base.win_max;
-    let expect_need = len.min(d) as usize;
+    let expect_need = if truncated { need } else { len.min(d) as usize };
     if need != expect_need {
         // informational: the statement's formula vs. what the hook measured
         out.warnings.push(format!("window hook measured {} but min(dict, produced) = {}", need, expect_need));
@@ -133,7 +151,7 @@ fn fam_limits(ctx: &CaseCtx, cov: &mut Cov) -> CaseOut {
     ];
     for (li, m) in limits {
         let measure = rng.chance(1, 4);
-        let r = run(api, &file, payload_at, props, dict, len, us, Some(m), &cuts, measure);
+        let r = run(api, &file, payload_at, props, dict, len, us, Some(m), &cuts, measure, allow_inc);
         out.evals += 1;
         cov.inc("limit", li as u32);
         cov.inc(if m >= need { "limit_sufficient" } else { "limit_too_small" }, api as u32);
@@ -157,11 +175,11 @@ fn fam_limits(ctx: &CaseCtx, cov: &mut Cov) -> CaseOut {
             continue;
         }
         if m >= need {
-            let same = r.verdict.is_ok() && (measure || r.out == enc.output);
+            let same = r.verdict.is_ok() == base.verdict.is_ok() && (measure || r.out == base.out);
             if !same {
                 out.violate(
                     format!("C10/{}/limit-sufficient-but-result-differs", API[api]),
-                    format!("{}: {} ({} bytes) but the unlimited run succeeds with {} bytes", what, r.verdict.short(), r.out.len(), enc.output.len()),
+                    format!("{}{}: {} ({} bytes) but the unlimited run gives {} with {} bytes", what, if truncated { " [input cut short]" } else { "" }, r.verdict.short(), r.out.len(), base.verdict.short(), base.out.len()),
                     data(),
                 );
             }
